@@ -287,6 +287,15 @@ Proof.
   exact (conj A (conj B (conj C (conj D (conj E (conj EvEx.publication (conj F G))))))).
 Qed.
 
+(** the same testament published in a CALL step: 13 kills 10 through
+    wamp.session.kill *)
+Example histories_c12_testament_of_killed_session :
+    snd (step (fst (run (init_realm EvEx.cfgd) EvEx.pre8)) EvEx.kill10) =
+    [(13, RResult 1 [] [] []); (10, RGoodbye [] e_close_normal);
+     (11, REvent 1 9 [("publisher", vid meta_id); ("publisher_authrole", vstr "trusted")] [vnat 9] []);
+     (12, REvent 1 9 [] [vnat 9] [])].
+Proof. exact EvEx.killed. Qed.
+
 (** INVOCATION: the caller's identity through disclose_me (callee 14
     announced caller_identification), through the registration's
     disclose_caller (callee 15), and a plain call without it *)
